@@ -29,6 +29,7 @@ def run(rep):
                                  **dwtmodel.small_inv2(rep.tier))
     dwtchecks.synthesis_2d(rep, fnd, table, calls2.records, "C10")
     dwtchecks.numeric_inverse_vs_pywt(rep, "C10", rep.tier)
+    dwtchecks.reuse_walk(rep, "C10", rep.tier, "inverse")       # ONE inverse module along a walk of pyramid sizes
     stagetrace.validate_dwt1(rep, "C10", rep.tier, "DWT1DInverse")
     stagetrace.validate_dwt2(rep, "C10", rep.tier, "DWTInverse")
     suitetrace.validate_suite(rep, "C10", "DWT1DInverse")      # the calls of the repository's own tests
